@@ -82,9 +82,13 @@ def handleXPath (args : List Sexp) : Option Sexp := do
       let els := elsRev.reverse
       let found := findall els root
       let nodes := root :: (dfsImpl (fun _ => false) (fun _ => true) false root).map (·.node)
-      let ms := nodes.map fun n => match xmatch elsRev root n with
-        | .ok b => .list [ofNat n.uid, ofBool b]
-        | .error _ => .list [ofNat n.uid, sym "raise"]
+      -- `xmatch` with the Tree built once for all nodes (same definitions: isInTree, matchUpT)
+      let t := TreeT.build root
+      let ms := nodes.map fun n =>
+        if !t.isInTree n then .list [ofNat n.uid, sym "raise"]
+        else match matchUpT t (root.size + 1) n elsRev with
+          | .ok b => .list [ofNat n.uid, ofBool b]
+          | .error _ => .list [ofNat n.uid, sym "raise"]
       pure (app "ok" [.list (elsRev.map elemSexp), .list (found.map (ofNat ·.uid)),
                       (match found with | n :: _ => ofNat n.uid | [] => sym "none"), .list ms])
 
